@@ -151,8 +151,8 @@ def ob_ell():
     return dict(H.stats(), paths=len(res), sample="ell over Fq atoms")
 
 
-def ob_final_exponent():
-    """final_exponentiation over exponents modulo q^12 - 1"""
+def ob_final_exponent(alias=False):
+    """final_exponentiation over exponents modulo q^12 - 1; alias: result object == input object"""
     P = prog()
     I = eir.Interp(P)
     N = Q ** 12 - 1
@@ -180,9 +180,9 @@ def ob_final_exponent():
         wr(a[0], rd(a[1]) * Q ** a[2])
     I.add_intercept(B + r"Fq12::frobenius_map\(.*\)", h_frob, "frobenius_map")
     fname = P.find1(B + r"final_exponentiation\(.*\)")
-    a = Obj("a", 576, "arg", 16, True)
+    a = Obj("a", 576, "arg", 16, not alias)
     a.cells[0] = (576, ("exp", 1))
-    out = Obj("out", 576, "arg", 16)
+    out = a if alias else Obj("out", 576, "arg", 16)
     I.call_named(fname, [Ptr(out, 0), Ptr(a, 0)])
     e = rd(Ptr(out, 0))
     want = 3 * (N // R_ORDER) % N
@@ -191,8 +191,6 @@ def ob_final_exponent():
     if e != want:
         raise Violation("final-exponent", "final_exponentiation raises to an exponent that is not 3 (q^12 - 1) / r (mod q^12 - 1); e * r mod (q^12-1) = %d" % (e * R_ORDER % N),
                         {"exponent_mod_r_cofactor": hex(e % R_ORDER)})
-    # aliasing: result == a
-    I2 = eir.Interp(P)
     return {"queries": 1, "paths": 1, "functions": [P.demangled[fname][:80]],
             "sample": "exponent = 3 (q^12-1)/r exactly (4314-bit integer comparison; %d intercepted group operations)" % sum(I.intercept_hits.values())}
 
